@@ -5,6 +5,15 @@ props = [json.loads(l) for l in open(os.path.join(HERE, "properties.jsonl"))]
 claims = json.load(open(os.path.join(HERE, "tools", "claims.json")))
 na = json.load(open(os.path.join(HERE, "tools", "not_applicable.json")))
 hooks = json.load(open(os.path.join(HERE, "tools", "hooks.json")))
+import subprocess
+try:
+    out = subprocess.run(["git", "-C", "/repo", "log", "--format=%h %s", "--reverse"], capture_output=True, text=True).stdout
+    commits = [l.split()[0] for l in out.splitlines() if l.split(" ", 1)[1].startswith("verif:")]
+    if commits:
+        hooks["source_commits"] = commits
+        json.dump(hooks, open(os.path.join(HERE, "tools", "hooks.json"), "w"), indent=1)
+except Exception:
+    pass
 checks = []
 for p in props:
     c = claims.get(p["id"])
